@@ -647,6 +647,9 @@ pub(crate) async fn fashare(
     let mut di_bi = vec![0; RHO];
     for r in 0..RHO {
         for k in (0..n).filter(|k| *k != i) {
+            if !open_commitment(&c0_c1_cm_k[k][r].2, &dm_k[k][r]) {
+                return Err(Error::CommitmentCouldNotBeOpened);
+            }
             let Some(&claimed_bit) = dm_k[k][r].first() else {
                 return Err(Error::InvalidLength);
             };
